@@ -18,8 +18,8 @@ CHECKS = {
    design_ref="§6 C05", technique="Lean 4 proof (state-machine: rejected call = identity) + exact differential correspondence with injected invalid calls and twin histories",
    note="memory-safety clause (no out-of-bounds access) is outside the model; it is exercised by the same histories but not proved"),
  "C07": dict(category="proof",
-   text="Theorem instances_independent (the interface step has no global component: steps of two instances commute) + exact poison tie: the real templates run with an exact scalar whose never-written values are tagged; use of such a value as an operand is counted per op (must be 0) and never-written slots reaching outputs are compared with the model, over all short words of pattern-growing/shrinking updates and random histories.",
-   design_ref="§6 C07", technique="Lean 4 proof (no shared state) + tagged-uninitialised exact scalar run of the real templates",
+   text="Theorems garbage_independent / garbage_independent_rel (two executions of ANY call history - setup, update with any argument subset, solve, settings changes, rejected calls - whose states differ only in never-written buffer slots, with arbitrary per-slot garbage that changes at every call, return identical outcomes, statuses, all 13 result vectors and info after every call; proved for every scalar type, by a 2-safety argument over the whole interface model: loopG_rel, initLoopG_rel, realOps_rel, solveTyped_rel, setupTyped_rel, updateTyped_rel, apiStep_rel in PiqpProofs/Garbage.lean), observe_rel, apiRel_refl, instances_independent (the interface step has no global component: steps of two instances commute) + exact poison tie: the real templates run with an exact scalar whose never-written values are tagged; use of such a value as an operand is counted per op (must be 0) and never-written slots reaching outputs are compared with the model, over all short words of pattern-growing/shrinking updates and random histories.",
+   design_ref="§6 C07", technique="Lean 4 proof (2-safety / non-interference of uninitialised slots over the whole interface model; no shared state) + tagged-uninitialised exact scalar run of the real templates",
    note="partial: real heap/stack pre-states, object relocation and threads are runtime behaviour not exhibited by the model; Eigen-internal scratch is trusted"),
  "C08": dict(category="proof",
    text="Lean theorems restoreBox_spec / restore_after_setupLb / restore_after_setupUb (for every n and every finite/infinite pattern the descending swap loop puts packed slot t at variable idx t and exactly the fill value, 0 resp. +inf, at every variable without a finite bound; the packing produced by setup_lb_data/setup_ub_data is strictly increasing: packLoop_inv), mehrotra_in_cone / initialPoint_in_cone (after the two Mehrotra-style shifts every active slack and multiplier of the initial point is strictly positive, under the guard that the shifted complementarity product is positive), step_in_cone / stepNumOp_in_cone / mainLoop_in_cone / solve_loop_in_cone (strict positivity is an invariant of the fraction-to-boundary rule for EVERY direction and of the whole main loop at every exit and every iteration budget, every back end, every factorisation outcome), swapLoop_mem. Tie: wellFormedFails evaluated exactly on results equal to the implementation's for all 4^n bound patterns (n=2 all back ends and preconditioners, n=3), budgets 1,2 and re-solves with n_lb != n_ub.",
@@ -54,7 +54,7 @@ CHECKS = {
    design_ref="§6 C12", technique="Lean 4 proof (state machine, all oracles) + exhaustive fault-mask runs with bit-exact trace replay",
    note="'transient failures do not prevent convergence' is monitored (numerical behaviour), not proved"),
  "C14": dict(category="proof",
-   text="Spec-level theorems on the dense Schur-complement recursions the model uses for LDL': ldlt_correct (symmetric input, no zero pivot => L D L' = A with L unit lower), ldltSolve_correct, solveLD_eq (the staged solve on stored factors is that recursion), perm_solve / innerLDLT_exact (assembled, symmetrically permuted, factorised, solved, permuted back and split: the model's sparse inner solver satisfies C13's InnerExact for every permutation), sparse_factor_then_solve_exact (C13's elimination theorem unconditional for the model's sparse back ends) + exhaustive exact correspondence of the pattern-dependent code: sparse::LDLt (elimination tree, symbolic column counts, numeric up-looking factorisation, solves) on ALL upper-triangular patterns with full diagonal for n<=5 x quasi-definite value sets incl. exact zero-pivot-inducing ones (random pivot position) x all permutations n<=4, dense LDLTNoPivot (blocked/unblocked, Lower/Upper) across the blocking threshold incl. zero pivots at, before and after block boundaries (n = 32, 33; thorough 130, 257), CSC utilities, AMD consistency.",
+   text="Spec-level theorems on the dense Schur-complement recursions the model uses for LDL': ldlt_correct (symmetric input, no zero pivot => L D L' = A with L unit lower), ldltSolve_correct, solveLD_eq (the staged solve on stored factors is that recursion), perm_solve / innerLDLT_exact (assembled, symmetrically permuted, factorised, solved, permuted back and split: the model's sparse inner solver satisfies C13's InnerExact for every permutation), sparse_factor_then_solve_exact (C13's elimination theorem unconditional for the model's sparse back ends), lltSolve_correct / solveLL_eq / innerLLT_exact / dense_factor_then_solve_exact (the same for the dense back end's Cholesky, given sqrt(x)^2 = x for x > 0) + exhaustive exact correspondence of the pattern-dependent code: sparse::LDLt (elimination tree, symbolic column counts, numeric up-looking factorisation, solves) on ALL upper-triangular patterns with full diagonal for n<=5 x quasi-definite value sets incl. exact zero-pivot-inducing ones (random pivot position) x all permutations n<=4, dense LDLTNoPivot (blocked/unblocked, Lower/Upper) across the blocking threshold incl. zero pivots at, before and after block boundaries (n = 32, 33; thorough 130, 257), CSC utilities, AMD consistency.",
    design_ref="§6 C14", technique="Lean 4 spec-level proof + exhaustive exact-rational correspondence of the pattern-dependent kernels",
    note="the refinement sparse symbolic/numeric code -> spec is carried by the exhaustive tie (n<=5) and random patterns, not by a theorem; Eigen AMD only checked for consistency"),
  "C15": dict(category="proof",
